@@ -210,7 +210,14 @@ func cmdCheck(args []string) int {
 	noEvidence := fs.Bool("no-evidence", false, "do not write evidence files")
 	timeout := fs.Int("timeout", 0, "per-solver timeout (s)")
 	dev := fs.Bool("dev", false, "development: full portfolio for every obligation, no confirmation")
+	module := fs.String("module", "", "sub-module of the repository to verify (e.g. v2): loads <repo>/<module> with the specification directory spec_<module>")
 	fs.Parse(args)
+	patterns := defaultPatterns
+	if *module != "" {
+		*repo = filepath.Join(*repo, *module)
+		specSubdir = "spec_" + *module
+		patterns = []string{".", "./internal"}
+	}
 	t0 := time.Now()
 	var props []string
 	if *propsF != "" {
@@ -218,7 +225,7 @@ func cmdCheck(args []string) int {
 	}
 	seed := 0
 	fmt.Sscanf(os.Getenv("VERIF_SEED"), "%d", &seed)
-	e, err := loadEngine(*repo, *verif, defaultPatterns, nil)
+	e, err := loadEngine(*repo, *verif, patterns, nil)
 	if err != nil {
 		fmt.Fprintln(os.Stderr, "ENGINE ERROR: load:", err)
 		// a tree that does not load cannot be judged
@@ -275,8 +282,15 @@ func cmdDump(args []string) int {
 	only := fs.String("only", "", "function substring")
 	out := fs.String("out", "/tmp/govc-dump", "output dir")
 	propsF := fs.String("props", "", "properties (use the check selection instead of -only alone)")
+	module := fs.String("module", "", "sub-module (e.g. v2)")
 	fs.Parse(args)
-	e, err := loadEngine(*repo, *verif, defaultPatterns, nil)
+	patterns := defaultPatterns
+	if *module != "" {
+		*repo = filepath.Join(*repo, *module)
+		specSubdir = "spec_" + *module
+		patterns = []string{".", "./internal"}
+	}
+	e, err := loadEngine(*repo, *verif, patterns, nil)
 	if err != nil {
 		fmt.Fprintln(os.Stderr, err)
 		return 3
